@@ -12,10 +12,10 @@ git apply "$D/patch.diff" || { echo "PATCH DOES NOT APPLY"; exit 2; }
 PYTHONPATH=$WT /venv/bin/python -m pytest -q -p no:cacheprovider --timeout=900 tests --deselect tests/PaBuLib/test_pabulib_data.py --deselect tests/test_pabulib.py::TestPabulib::test_url_parse -q 2>&1 | tail -1 > /tmp/seed_tests.$$
 PYTHONPATH=$WT /venv/bin/python "$D/demo.py" $WT >/tmp/seed_demo1.$$ 2>&1; R1=$?
 echo "demo on HEAD rc=$R0 ; demo with patch rc=$R1 ; tests: $(cat /tmp/seed_tests.$$)"
-mkdir -p /work/seedtest; rsync -a --exclude .buildlock /verif/coq/ /work/seedtest/coq/
+ST=/work/seedtest-$$; mkdir -p $ST; rsync -a --exclude .buildlock /verif/coq/ $ST/coq/
 cd /verif
 for Q in $P $EXTRA; do
-  OUT=$(VERIF_REPO=$WT VERIF_COQ=/work/seedtest/coq timeout 1500 ./check $Q quick 2>&1 | grep -v conda | tail -4)
+  OUT=$(VERIF_REPO=$WT VERIF_COQ=$ST/coq timeout 1500 ./check $Q quick 2>&1 | grep -v conda | tail -4)
   if echo "$OUT" | grep -q "^VIOLATION"; then echo "$Q: CAUGHT  $(echo "$OUT" | grep '^VIOLATION')"; else echo "$Q: MISSED  $(echo "$OUT" | tail -1)"; fi
 done
-rm -f /tmp/seed_demo0.$$ /tmp/seed_demo1.$$ /tmp/seed_tests.$$
+rm -rf $ST; rm -f /tmp/seed_demo0.$$ /tmp/seed_demo1.$$ /tmp/seed_tests.$$
